@@ -126,6 +126,12 @@ func init() {
 				{File: "internal/routing/table.go", Old: "\t// Check for routing loops (is our ID in the path?)\n\tfor _, id := range route.Path {\n\t\tif id == t.localID {\n\t\t\treturn false // Loop detected\n\t\t}\n\t}\n", New: "\tif slices.Index(route.Path, t.localID) == -1 {\n\t\treturn false\n\t}\n"},
 				{File: "internal/routing/table.go", Old: "import (\n", New: "import (\n\t\"slices\"\n"},
 			}},
+			{Name: "replay leaves out the peer's own presence instead of what was learned from it (seed C11-d)", ExpectRule: "C11.R6", ExpectKey: "SendFullTable", Edits: []Edit{
+				{File: "internal/flood/flood.go", Old: "\tfor _, route := range agentRoutes {\n\t\t// Don't send routes learned from the peer we're sending to\n\t\tif route.NextHop == peerID {", New: "\tfor _, route := range agentRoutes {\n\t\tif route.AgentID == peerID {"},
+			}},
+			{Name: "forward routes replayed without split horizon", ExpectRule: "C11.R6", ExpectKey: "SendFullTable", Edits: []Edit{
+				{File: "internal/flood/flood.go", Old: "\tfor _, route := range forwardRoutes {\n\t\t// Don't send routes learned from the peer we're sending to\n\t\tif route.NextHop == peerID {\n\t\t\tcontinue\n\t\t}\n", New: "\tfor _, route := range forwardRoutes {\n"},
+			}},
 			{Name: "rewrite: nested positive form, negated membership, swapped operands", Edits: []Edit{
 				{File: "internal/flood/flood.go", Old: "\t\tif peerID == fromPeer || containsAgent(seenBy, peerID) {\n\t\t\tcontinue\n\t\t}\n\t\tif err := f.sender.SendToPeer(peerID, frame); err != nil {\n\t\t\tf.logger.Debug(logMsg,\n\t\t\t\tlogging.KeyPeerID, peerID.ShortString(),\n\t\t\t\tlogging.KeyError, err)\n\t\t}", New: "\t\tif fromPeer != peerID && !containsAgent(seenBy, peerID) {\n\t\t\tif err := f.sender.SendToPeer(peerID, frame); err != nil {\n\t\t\t\tf.logger.Debug(logMsg,\n\t\t\t\t\tlogging.KeyPeerID, peerID.ShortString(),\n\t\t\t\t\tlogging.KeyError, err)\n\t\t\t}\n\t\t}"},
 				{File: "internal/flood/flood.go", Old: "\t// Check loop detection\n\tif containsAgent(seenBy, f.localID) {\n\t\treturn false\n\t}\n", New: "\tself := f.localID\n\tif inList := containsAgent(seenBy, self); inList == true {\n\t\treturn false\n\t}\n"},
@@ -214,6 +220,38 @@ func c11HasField(n *types.Named, name string) *types.Var {
 	return nil
 }
 
+// c11SendPeer returns the destination of a send: the first argument of SendToPeer, or — for a call
+// to a flood-package wrapper whose body sends to one of its own parameters exactly once
+// (send-and-log helpers) — the argument bound to that parameter.
+func c11SendPeer(c ssa.CallInstruction) (ssa.Value, bool) {
+	if c11IsSend(c) {
+		return kit.Arg(c, 0), true
+	}
+	cal := kit.CalleeOf(c)
+	if cal.Static == nil || cal.Static.Blocks == nil || kit.FuncPkgPath(cal.Static) != kit.PkgPath(c11FloodPkg) {
+		return nil, false
+	}
+	var prm *ssa.Parameter
+	n := 0
+	for _, c2 := range kit.Calls(cal.Static) {
+		if c11IsSend(c2) {
+			n++
+			prm, _ = kit.Arg(c2, 0).(*ssa.Parameter)
+			if c11LoopDepth(c2.Block()) != 0 {
+				prm = nil
+			}
+		}
+	}
+	if n != 1 || prm == nil || prm.Parent() != cal.Static {
+		return nil, false
+	}
+	idx := c11ParamIndex(prm)
+	if idx >= len(c.Common().Args) {
+		return nil, false
+	}
+	return c.Common().Args[idx], true
+}
+
 // c11IsSend: call is PeerSender.SendToPeer / (*peer.Manager).SendToPeer (exported API, implemented by test mocks).
 func c11IsSend(c ssa.CallInstruction) bool {
 	cal := kit.CalleeOf(c)
@@ -266,7 +304,7 @@ func newC11Flood(p *kit.Program, r *kit.Report) *c11Flood {
 			continue
 		}
 		for _, c := range kit.Calls(fn) {
-			if c11IsSend(c) && c11FromPeerList(kit.Arg(c, 0)) {
+			if peer, isSend := c11SendPeer(c); isSend && c11FromPeerList(peer) {
 				cx.floodFns = append(cx.floodFns, fn)
 				break
 			}
@@ -593,10 +631,41 @@ func c11Reduce(v ssa.Value, chain []ssa.CallInstruction) (ssa.Value, []ssa.CallI
 				v = d
 				continue
 			}
+			// a variable captured by a closure: the free variable is the address of the parent's cell
+			if fv, ok := x.X.(*ssa.FreeVar); ok && x.Op == token.MUL {
+				if cell := c11FreeVarCell(fv); cell != nil {
+					if d := c11CellValue(cell); d != nil {
+						v = d
+						continue
+					}
+				}
+			}
 		}
 		break
 	}
 	return v, chain
+}
+
+// c11FreeVarCell returns the parent's local cell a closure's free variable is bound to.
+func c11FreeVarCell(fv *ssa.FreeVar) *ssa.Alloc {
+	fn := fv.Parent()
+	parent := fn.Parent()
+	if parent == nil {
+		return nil
+	}
+	idx := -1
+	for i, q := range fn.FreeVars {
+		if q == fv {
+			idx = i
+		}
+	}
+	var cell *ssa.Alloc
+	kit.Instrs(parent, func(in ssa.Instruction) {
+		if mc, ok := in.(*ssa.MakeClosure); ok && mc.Fn == ssa.Value(fn) && idx >= 0 && idx < len(mc.Bindings) {
+			cell, _ = mc.Bindings[idx].(*ssa.Alloc)
+		}
+	})
+	return cell
 }
 
 // c11DerefCell: u is a load of a local cell that is stored to exactly once as a whole (and never
@@ -816,6 +885,7 @@ type c11Dedup struct {
 	keyVal  ssa.Value       // the key probed, as a value of fn
 	ok      ssa.Value       // value telling whether the key was found
 	okFound bool            // truth value of ok that means "found"
+	val     ssa.Value       // the looked-up entry (pointer): `val != nil` is a found-test too
 	insert  *ssa.MapUpdate
 	field   *types.Var
 	chain   []ssa.CallInstruction // calls leading from the handler down to fn (empty when inline)
@@ -941,12 +1011,34 @@ func c11FindDedup(cx *c11Flood, h *ssa.Function) *c11Dedup {
 			switch x := in.(type) {
 			case *ssa.Lookup:
 				lf, _ := kit.LoadedField(x.X)
-				if lf == nil || !cx.seenMaps[lf] || !x.CommaOk {
+				if lf == nil || !cx.seenMaps[lf] {
+					return
+				}
+				if !x.CommaOk {
+					// `entry := cache[key]; if entry == nil {…}`: the nil test of the pointer entry is the found-test
+					if _, isPtr := x.Type().Underlying().(*types.Pointer); !isPtr || x.Referrers() == nil {
+						return
+					}
+					var test *ssa.BinOp
+					for _, ref := range *x.Referrers() {
+						if bo, ok := ref.(*ssa.BinOp); ok && (bo.Op == token.EQL || bo.Op == token.NEQ) && (kit.IsNilConst(bo.X) || kit.IsNilConst(bo.Y)) && test == nil {
+							test = bo
+						}
+					}
+					if test == nil {
+						return
+					}
+					for _, u := range ups {
+						if uf, _ := kit.LoadedField(u.Map); uf == lf {
+							found = &c11Dedup{fn: fn, probe: x, keyVal: x.Index, insert: u, field: lf, ok: test, okFound: test.Op == token.NEQ, val: x}
+							return
+						}
+					}
 					return
 				}
 				for _, u := range ups {
 					if uf, _ := kit.LoadedField(u.Map); uf == lf {
-						found = &c11Dedup{fn: fn, probe: x, keyVal: x.Index, insert: u, field: lf, ok: c11ExtractOf(x, 1), okFound: true}
+						found = &c11Dedup{fn: fn, probe: x, keyVal: x.Index, insert: u, field: lf, ok: c11ExtractOf(x, 1), okFound: true, val: c11ExtractOf(x, 0)}
 						return
 					}
 				}
@@ -1003,6 +1095,83 @@ func c11FindDedup(cx *c11Flood, h *ssa.Function) *c11Dedup {
 		}
 	}
 	return nil
+}
+
+// foundTruth: c (a normalised condition) is this dedup's found-test — the ok value / the probe's
+// verdict, or a nil comparison of the looked-up entry; returns the truth value that means "found".
+func (d *c11Dedup) foundTruth(c ssa.Value) (bool, bool) {
+	if d.ok != nil && c == d.ok {
+		return d.okFound, true
+	}
+	if bo, ok := c.(*ssa.BinOp); ok && d.val != nil && (bo.Op == token.EQL || bo.Op == token.NEQ) {
+		if (bo.X == d.val && kit.IsNilConst(bo.Y)) || (bo.Y == d.val && kit.IsNilConst(bo.X)) {
+			return bo.Op == token.NEQ, true
+		}
+	}
+	return false, false
+}
+
+// c11NotFoundGuard: control reaches `in` only on a not-found outcome of the probe.
+func c11NotFoundGuard(in ssa.Instruction, d *c11Dedup) bool {
+	for _, g := range c11Guards(in) {
+		if ft, ok := d.foundTruth(g.Cond); ok && g.Polarity != ft {
+			return true
+		}
+	}
+	return false
+}
+
+// c11ReachSkippingInsert: on the not-found outcome (every branch on the found-test takes its
+// not-found edge), can `target` be reached from the probe without executing the insertion?
+func c11ReachSkippingInsert(d *c11Dedup, target ssa.Instruction) bool {
+	start := d.probe.Block()
+	seen := map[*ssa.BasicBlock]bool{}
+	type item struct {
+		b    *ssa.BasicBlock
+		from int
+	}
+	work := []item{{start, kit.InstrIndex(d.probe) + 1}}
+	for len(work) > 0 {
+		it := work[len(work)-1]
+		work = work[:len(work)-1]
+		if it.from == 0 {
+			if seen[it.b] {
+				continue
+			}
+			seen[it.b] = true
+		}
+		blocked := false
+		for i := it.from; i < len(it.b.Instrs); i++ {
+			in := it.b.Instrs[i]
+			if in == ssa.Instruction(d.insert) {
+				blocked = true
+				break
+			}
+			if in == target {
+				return true
+			}
+		}
+		if blocked {
+			continue
+		}
+		if n := len(it.b.Instrs); n > 0 {
+			if ifi, ok := it.b.Instrs[n-1].(*ssa.If); ok {
+				c, pol := c11Norm(ifi.Cond, true)
+				if ft, isTest := d.foundTruth(c); isTest {
+					if (!ft) == pol {
+						work = append(work, item{it.b.Succs[0], 0})
+					} else {
+						work = append(work, item{it.b.Succs[1], 0})
+					}
+					continue
+				}
+			}
+		}
+		for _, sc := range it.b.Succs {
+			work = append(work, item{sc, 0})
+		}
+	}
+	return false
 }
 
 // c11ProbeHelper recognises a function that looks one of its parameters up in a seen-cache map
@@ -1085,6 +1254,7 @@ func runC11(p *kit.Program, r *kit.Report) {
 	r.Rule("C11.R2", "expiry-proof: the same effects are dominated by the false edge of a membership test of the local id in the received seen-by list")
 	r.Rule("C11.R3", "every flooded message literal carries the local id in SeenBy; a forwarded one carries the received seen-by list as well")
 	r.Rule("C11.R5", "no route through self: in every AddRoute method of the routing tables each table write (map insert, slot replacement, field store into a stored record) is dominated by the loop that scans route.Path for the table's own id, and is unreachable from its reject edge")
+	r.Rule("C11.R6", "split horizon of full-table replays: every stored route record selected for a replay to a peer is filtered by record.NextHop != that peer (directly, or by the routing call that produced the list and is given the peer)")
 	r.Rule("C11.R4", "the forwarding loop calls SendToPeer exactly once, inside a single loop over GetPeerIDs(), only for peers different from the sender and not in the seen-by list")
 	cx := newC11Flood(p, r)
 	if cx == nil {
@@ -1130,7 +1300,7 @@ func runC11(p *kit.Program, r *kit.Report) {
 			// one key
 			sameKey := d.keyVal == d.insert.Key || c11SameLoad(d.keyVal, d.insert.Key)
 			// insertion only when not found
-			insGuard := d.ok != nil && c11Guarded(d.insert, d.ok, !d.okFound)
+			insGuard := c11NotFoundGuard(d.insert, d)
 			// one write-locked region
 			li := kit.Locks(d.fn)
 			atomic := false
@@ -1160,7 +1330,7 @@ func runC11(p *kit.Program, r *kit.Report) {
 			for _, s := range sinks {
 				ok := false
 				if d.call == nil {
-					ok = d.ok != nil && c11Guarded(s.in, d.ok, !d.okFound) && kit.Precedes(d.insert, s.in)
+					ok = c11NotFoundGuard(s.in, d) && !c11ReachSkippingInsert(d, s.in)
 				} else {
 					ok = polOK && d.res != nil && c11FactHolds(s.in, d.res, d.newVal)
 				}
@@ -1242,7 +1412,7 @@ func runC11(p *kit.Program, r *kit.Report) {
 		fnn := kit.FuncName(fn)
 		var sends []ssa.CallInstruction
 		for _, c := range kit.Calls(fn) {
-			if c11IsSend(c) {
+			if _, isSend := c11SendPeer(c); isSend {
 				sends = append(sends, c)
 			}
 		}
@@ -1251,7 +1421,7 @@ func runC11(p *kit.Program, r *kit.Report) {
 		for i, s := range sends {
 			key := fmt.Sprintf("%s send #%d", fnn, i+1)
 			pos := p.Pos(s.Pos())
-			peer := kit.Arg(s, 0)
+			peer, _ := c11SendPeer(s)
 			depth := c11LoopDepth(s.Block())
 			r.Decide(depth == 1 && c11FromPeerList(peer), "C11.R4", key+" once per peer", pos,
 				"inside exactly one loop over GetPeerIDs()",
@@ -1297,6 +1467,9 @@ func runC11(p *kit.Program, r *kit.Report) {
 
 	// ---------------- R5
 	g4SelfInPath(p, cx, r, "C11.R5")
+
+	// ---------------- R6
+	g4SplitHorizon(p, cx, r, "C11.R6")
 }
 
 // c11Selection finds, for the send `s` of forwarding function fn, the instruction at which a
@@ -1305,7 +1478,7 @@ func runC11(p *kit.Program, r *kit.Report) {
 // the append in that helper which adds an element of GetPeerIDs() to the result. bindOK is false
 // when the helper's sender / seen-by parameters are not fed with fn's own parameters.
 func c11Selection(cx *c11Flood, fn *ssa.Function, s ssa.CallInstruction) (*ssa.Function, ssa.Instruction, ssa.Value, bool) {
-	peer := kit.Arg(s, 0)
+	peer, _ := c11SendPeer(s)
 	list := c11ElemList(peer)
 	if list == nil {
 		return fn, s, peer, true
@@ -1468,7 +1641,8 @@ func c11HelperPolarityAt(d *c11Dedup, idx int) (newVal bool, ok bool) {
 			continue
 		}
 		c, pol := c11Norm(v, true)
-		if d.ok == nil || c != d.ok {
+		ft, isTest := d.foundTruth(c)
+		if !isTest {
 			return false, false
 		}
 		// result == (ok == pol): "found" yields pol, "not found" yields !pol; the not-found path
@@ -1476,8 +1650,8 @@ func c11HelperPolarityAt(d *c11Dedup, idx int) (newVal bool, ok bool) {
 		if c11ReachAvoiding(d, ret) {
 			return false, false
 		}
-		newSet[d.okFound != pol] = true
-		oldSet[d.okFound == pol] = true
+		newSet[ft != pol] = true
+		oldSet[ft == pol] = true
 	}
 	if len(newSet) != 1 {
 		return false, false
@@ -1504,12 +1678,13 @@ func c11ReachAvoiding(d *c11Dedup, ret *ssa.Return) bool {
 			continue
 		}
 		c, pol := c11Norm(ifi.Cond, true)
-		if c != d.ok {
+		ft, isTest := d.foundTruth(c)
+		if !isTest {
 			continue
 		}
 		found = true
 		start := b.Succs[1] // the not-found edge
-		if (!d.okFound) == pol {
+		if (!ft) == pol {
 			start = b.Succs[0]
 		}
 		seen := map[*ssa.BasicBlock]bool{}
